@@ -8,6 +8,7 @@ import (
 	corev1 "k8s.io/api/core/v1"
 	metav1 "k8s.io/apimachinery/pkg/apis/meta/v1"
 	"k8s.io/apimachinery/pkg/labels"
+	"sigs.k8s.io/controller-runtime/pkg/client"
 
 	v1 "github.com/DataDog/extendeddaemonset/api/v1alpha1"
 
@@ -620,5 +621,57 @@ func (w *World) CanarySteadyState(ns, name string) {
 		}
 		w.Mon.viol("C04", rule, map[string]string{"phase": "steady-state"}, nil, map[string]any{"why": why, "bound": bound, "pods": w.podSummary(ns, name),
 			"eds-annotations": ee.Annotations, "eds-status": fmt.Sprintf("state=%s canary=%+v", ee.Status.State, ee.Status.Canary), "canary-rs-conditions": conds})
+		return
+	}
+	// "every other eligible node keeps being served with the active template", also when the pod of such a node fails
+	// during the canary and the canary replica set happens to sync before the active one every time
+	e = kit.GetEDS(w.S, ns, name)
+	_, active, up = w.CanaryInProgress(ns, name)
+	if e == nil || e.Status.Canary == nil || active == nil || up == nil {
+		return
+	}
+	isCanary := map[string]bool{}
+	for _, n := range e.Status.Canary.Nodes {
+		isCanary[n] = true
+	}
+	var victim *corev1.Pod
+	for _, p := range w.DaemonPods(ns, name) {
+		if n := kit.NodeOfPod(p); !isCanary[n] && kit.IsReady(p) && p.DeletionTimestamp == nil && kit.MarkerOfPod(p) == kit.MarkerOfTemplate(&active.Spec.Template) {
+			if victim == nil || p.Name < victim.Name {
+				victim = p
+			}
+		}
+	}
+	if victim == nil {
+		return
+	}
+	w.S.Mutate(simapi.KindPod, victim.Namespace, victim.Name, func(o client.Object) {
+		pp := o.(*corev1.Pod)
+		pp.Status.Phase = corev1.PodFailed
+		pp.Status.Reason = "Evicted"
+		setPodCond(pp, corev1.PodCondition{Type: corev1.PodReady, Status: corev1.ConditionFalse, LastTransitionTime: metav1.NewTime(w.Now())})
+	})
+	w.tracef("env: pod %s on non-canary node %s evicted (Failed) during the canary", victim.Name, kit.NodeOfPod(victim))
+	why = "not run"
+	for i := 0; i < 60; i++ {
+		w.Advance(2 * time.Second)
+		w.Reconcile("ers", ns, up.Name)
+		w.Reconcile("ers", ns, active.Name)
+		w.Reconcile("eds", ns, name)
+		w.KubeletStep()
+		w.KubeletStep()
+		if why = check(); why == "" || why == "canary no longer in progress" {
+			break
+		}
+	}
+	if why == "canary no longer in progress" {
+		return
+	}
+	if _, _, upNow := w.CanaryInProgress(ns, name); upNow != nil && (oracle.RSCond(upNow, v1.ConditionTypeCanaryPaused) || oracle.RSCond(upNow, v1.ConditionTypeCanaryFailed)) {
+		return
+	}
+	w.Ctx.Count("C04.steady-failed-pod-phases-judged")
+	if why != "" && strings.HasPrefix(why, "others-served") {
+		w.Mon.viol("C04", "C04.others-served", map[string]string{"phase": "pod-failed-during-canary"}, nil, map[string]any{"why": why, "rounds": 60, "evicted": victim.Name, "pods": w.podSummary(ns, name)})
 	}
 }
